@@ -91,6 +91,7 @@ func (g *Gen) Case(i int) Case {
 		rates.Panic = 40
 	case "c06":
 		rates.Delay, rates.MaxDelay = 400, 300
+		rates.Ext = 300
 	case "c13":
 		rates.Delay, rates.MaxDelay = 300, 300
 	case "clean", "c13clean":
